@@ -4,6 +4,7 @@ import (
 	"errors"
 	"fmt"
 	"os"
+	"regexp"
 	"sort"
 	"strings"
 	"testing"
@@ -97,9 +98,9 @@ var diffOff = map[string]bool{
 	"builtin.select": true, "builtin.round": true, "builtin.determinant": true, "builtin.transpose": true,
 	"const-fold.mat-binary": true, // M13: a folded matrix + matrix is declared and constructed as a vector type
 	"const.index.composite": true, // front end: member of a constant struct holding a vector evaluates to the wrong component
-	"private-init.unary": true, // M14: a negated literal inside a private variable's struct initializer is emitted as {}
-	"ptr.deref.compound": true, // M12: integer %= through a pointer is written metal::fmod
-	"transpose.nonsquare": true, "determinant.negate": true, "module-const.expr": true, "module-const.struct": true,
+	"private-init.unary":    true, // M14: a negated literal inside a private variable's struct initializer is emitted as {}
+	"ptr.deref.compound":    true, // M12: integer %= through a pointer is written metal::fmod
+	"transpose.nonsquare":   true, "determinant.negate": true, "module-const.expr": true, "module-const.struct": true,
 }
 
 // diffKnown: signatures of discrepancies triaged as naga defects
@@ -113,6 +114,9 @@ var diffKnown = []struct{ pat, label string }{
 	{"cannot index a value of type float", "M11 component of a constant splat written 0.0[0]"},
 	{"metal::fmod(int, int) is ambiguous", "M12 integer %= through a pointer written metal::fmod"},
 	{"the arguments supply", "M13 constant-folded matrix expression constructed as a vector"},
+	{"(packed_", "M15 as_type applied to a packed vec3 member of a local struct (12 bytes) with a 16-byte target"},
+	{"operands of ?: have incompatible types", "M6 `?:` operand without parentheses (swizzle applied to the last operand only)"},
+	{"condition of type DefaultConstructible", "M5 rzsw load without parentheses"},
 	{"metal::fmod(uint, uint) is ambiguous", "M12 integer %= through a pointer written metal::fmod"},
 }
 
@@ -191,6 +195,15 @@ func diffJudge(c *xrun.Case, dc diffConfig) (verdict, txt string) {
 				return "known naga defect: " + k.label
 			}
 		}
+		if kind == "mismatch" && strings.Contains(txt, "uint(-1), ") && strings.Contains(txt, " == -1)") {
+			return "known naga defect (textual signature): M16 firstLeadingBit(u32) tests x == -1 @" + msg
+		}
+		if swizzleOfParen.MatchString(c.WGSL) && kind != "step limit" {
+			return "known naga defect (WGSL signature): M9 swizzle of a parenthesised expression @" + msg
+		}
+		if kind != "step limit" && bareConditional(txt) {
+			return "known naga defect (textual signature): M6 `?:` operand without parentheses @" + msg
+		}
 		return "FAIL " + kind + ": " + msg
 	}
 	p, err := ctext.Parse(ctext.MSL, txt)
@@ -268,4 +281,100 @@ func diffJudge(c *xrun.Case, dc diffConfig) (verdict, txt string) {
 		return classify("mismatch", msg), txt
 	}
 	return "ok", txt
+}
+
+var swizzleOfParen = regexp.MustCompile(`\)\.[xyzwrgba]{2,4}\b`)
+
+// bareConditional reports the textual signature of defect M6: a conditional
+// expression that is an operand of an arithmetic operator without enclosing
+// parentheses:  `x + (c) ? a : b`,  `x + c ? a : b`,  `(c) ? a : b * y`.
+func bareConditional(txt string) bool {
+	isOp := func(b byte) bool { return strings.IndexByte("+-*/%&|^", b) >= 0 }
+	for i := 0; i < len(txt); i++ {
+		if txt[i] != '?' {
+			continue
+		}
+		// left: the condition operand is a parenthesised group or a name
+		j := i - 1
+		for j >= 0 && txt[j] == ' ' {
+			j--
+		}
+		if j >= 0 && txt[j] == ')' {
+			depth := 0
+			for ; j >= 0; j-- {
+				if txt[j] == ')' {
+					depth++
+				}
+				if txt[j] == '(' {
+					depth--
+					if depth == 0 {
+						break
+					}
+				}
+			}
+			// a call: skip the callee name
+			for j > 0 && (txt[j-1] == '_' || txt[j-1] == ':' || (txt[j-1] >= 'a' && txt[j-1] <= 'z') || (txt[j-1] >= 'A' && txt[j-1] <= 'Z') || (txt[j-1] >= '0' && txt[j-1] <= '9')) {
+				j--
+			}
+			j--
+		} else {
+			for j >= 0 && (txt[j] == '_' || txt[j] == '.' || (txt[j] >= 'a' && txt[j] <= 'z') || (txt[j] >= 'A' && txt[j] <= 'Z') || (txt[j] >= '0' && txt[j] <= '9')) {
+				j--
+			}
+		}
+		for j >= 0 && txt[j] == ' ' {
+			j--
+		}
+		if j >= 0 && (isOp(txt[j]) || (txt[j] == '=' && j > 0 && strings.IndexByte("=!<>", txt[j-1]) >= 0) ||
+			(j > 0 && (txt[j] == '>' || txt[j] == '<') && txt[j-1] == txt[j])) {
+			return true
+		}
+		// right: the else operand is followed by an arithmetic operator
+		depth := 0
+		k := i + 1
+		for ; k < len(txt); k++ {
+			c := txt[k]
+			if c == '(' || c == '[' {
+				depth++
+			}
+			if c == ')' || c == ']' {
+				if depth == 0 {
+					break
+				}
+				depth--
+			}
+			if depth == 0 && (c == ';' || c == ',' || c == '\n') {
+				break
+			}
+			if depth == 0 && c == ':' && k+1 < len(txt) && txt[k+1] != ':' && txt[k-1] != ':' {
+				// the else operand: one primary expression
+				m := k + 1
+				for m < len(txt) && txt[m] == ' ' {
+					m++
+				}
+				d2 := 0
+				for ; m < len(txt); m++ {
+					e := txt[m]
+					if e == '(' || e == '[' {
+						d2++
+					} else if e == ')' || e == ']' {
+						if d2 == 0 {
+							break
+						}
+						d2--
+					} else if d2 == 0 && (e == ' ' || e == ';' || e == ',') {
+						break
+					}
+				}
+				for m < len(txt) && txt[m] == ' ' {
+					m++
+				}
+				if m < len(txt) && (isOp(txt[m]) || strings.IndexByte("<>=!", txt[m]) >= 0) {
+					return true
+				}
+				break
+			}
+		}
+	}
+	return false
 }
